@@ -49,23 +49,49 @@ class Terms:
         if depth > 4:
             raise Unknown('call depth')
         env = dict(bind)
-        ret = None
-        for st in f.node.body:
+        ret = self.stmts(f.node.body, env, f, depth)
+        if ret is None:
+            raise Unknown(f'{f.name} returns nothing')
+        return ret
+
+    def stmts(self, body, env, f, depth):
+        for st in body:
             if isinstance(st, ast.Expr) and isinstance(st.value, ast.Constant):
                 continue
             if isinstance(st, ast.Assign) and len(st.targets) == 1 and isinstance(st.targets[0], ast.Name):
                 env[st.targets[0].id] = self.ev(st.value, env, f, depth)
                 continue
+            if isinstance(st, ast.Assign) and len(st.targets) == 1 and isinstance(st.targets[0], ast.Subscript) and isinstance(st.targets[0].value, ast.Name) and whole(st.targets[0].slice):
+                # `res[...] = v`: every row at once; a value built from the guesses vector by broadcasting holds, in the row of a
+                # guess, the elementwise term with that guess
+                v = self.ev(st.value, env, f, depth)
+                env[st.targets[0].value.id] = ('perguess', subst_guess(v)) if mentions_guesses(v) else v
+                continue
             if isinstance(st, ast.For):
                 self.loop(st, env, f, depth)
                 continue
+            if isinstance(st, ast.If):
+                # a fast path next to the general one: both arms must leave the same value terms behind
+                outs = []
+                for arm in (st.body, st.orelse):
+                    e2 = dict(env)
+                    r2 = self.stmts(arm, e2, f, depth)
+                    outs.append((e2, r2))
+                (ea, ra), (eb, rb) = outs
+                names = {k for k in set(ea) | set(eb) if ea.get(k) != env.get(k) or eb.get(k) != env.get(k)}
+                for k in names:
+                    if lift(ea.get(k))[1] != lift(eb.get(k))[1] or lift(ea.get(k))[0] != lift(eb.get(k))[0]:
+                        raise Unknown(f'the two arms of `if {norm(st.test)[:40]}` leave different values in `{k}`')
+                    env[k] = ea.get(k)
+                if (ra is None) != (rb is None) or (ra is not None and lift(ra) != lift(rb)):
+                    raise Unknown(f'the two arms of `if {norm(st.test)[:40]}` return different values')
+                if ra is not None:
+                    return ra
+                continue
             if isinstance(st, ast.Return):
-                ret = self.ev(st.value, env, f, depth)
-                break
+                return self.ev(st.value, env, f, depth)
             raise Unknown(f'statement `{norm(st)[:50]}`')
-        if ret is None:
-            raise Unknown(f'{f.name} returns nothing')
-        return ret
+        return None
 
     def loop(self, st, env, f, depth):
         it, t = st.iter, st.target
@@ -173,6 +199,10 @@ class Terms:
                     return ('step', r[1].name + '.' + e.attr)
             raise Unknown(f'attribute {norm(e)[:40]}')
         if isinstance(e, ast.Subscript):
+            sl = e.slice.elts if isinstance(e.slice, ast.Tuple) else [e.slice]
+            if all((isinstance(x, ast.Constant) and x.value in (None, Ellipsis)) or (isinstance(x, ast.Slice) and x.lower is None and x.upper is None and x.step is None)
+                   or (isinstance(x, ast.Attribute) and x.attr == 'newaxis') for x in sl):
+                return self.ev(e.value, env, f, depth)        # x[None], x[:, None], x[...]: added unit axes, the elementwise term is unchanged
             raise Unknown(f'subscript {norm(e)[:40]}')
         if isinstance(e, ast.Call):
             fn = e.func
@@ -198,7 +228,7 @@ class Terms:
             if isinstance(fn, ast.Attribute) and d is None:
                 # array method on a term
                 base = self.ev(fn.value, env, f, depth)
-                if fn.attr in ('swapaxes', 'astype', 'copy'):
+                if fn.attr in ('swapaxes', 'astype', 'copy', 'reshape', 'transpose'):
                     return base
                 raise Unknown(f'method .{fn.attr}')
             if isinstance(fn, ast.Name) and fn.id == 'len':
@@ -221,6 +251,29 @@ class Terms:
                 return ('app', callee.mod.name + '.' + callee.qualname, args, kws)
             raise Unknown(f'call {norm(fn)[:40]}')
         raise Unknown(f'expression {norm(e)[:40]}')
+
+
+def whole(sl):
+    xs = sl.elts if isinstance(sl, ast.Tuple) else [sl]
+    return all((isinstance(x, ast.Constant) and x.value is Ellipsis) or (isinstance(x, ast.Slice) and x.lower is None and x.upper is None and x.step is None) for x in xs)
+
+
+def mentions_guesses(t):
+    if t == 'guesses':
+        return True
+    if isinstance(t, (tuple, frozenset)):
+        return any(mentions_guesses(x) for x in t)
+    return False
+
+
+def subst_guess(t):
+    if t == 'guesses':
+        return 'guess'
+    if isinstance(t, frozenset):
+        return frozenset(subst_guess(x) for x in t)
+    if isinstance(t, tuple):
+        return tuple(subst_guess(x) for x in t)
+    return t
 
 
 def xor(a, b):
@@ -607,7 +660,10 @@ def d2(ctx, prog, regs):
     ctx.check(len(rets) == 1 and isinstance(rets[0].value, ast.Call) and norm(rets[0].value.func) == 'self.expected_key_function', 'C07-D2', f'{ek.key}::result',
               'compute_expected_key does not return the expected-key function\'s result', 'returns expected_key_function(**selected metadata)', ek.where())
     binds = [s for s in ast.walk(ek.node) if isinstance(s, ast.Assign) and isinstance(s.targets[0], ast.Subscript) and isinstance(s.value, ast.Subscript)]
-    ctx.check(len(binds) == 1 and norm(binds[0].targets[0].slice) == norm(binds[0].value.slice), 'C07-D2', f'{ek.key}::binding', 'key metadata is not bound to the parameter of the same name',
+    dcomps = [d for d in ast.walk(ek.node) if isinstance(d, ast.DictComp) and isinstance(d.value, ast.Subscript) and len(d.generators) == 1 and not d.generators[0].ifs]
+    same_name = (len(binds) == 1 and not dcomps and norm(binds[0].targets[0].slice) == norm(binds[0].value.slice)) or \
+        (len(dcomps) == 1 and not binds and isinstance(dcomps[0].key, ast.Name) and norm(dcomps[0].key) == norm(dcomps[0].value.slice) and norm(dcomps[0].generators[0].target) == norm(dcomps[0].key))
+    ctx.check(same_name, 'C07-D2', f'{ek.key}::binding', 'key metadata is not bound to the parameter of the same name',
               'each parameter of the key function receives the metadata of the same name', ek.where())
     # SelectionFunction.__call__: words on the last axis, nothing else
     sf = prog.need_class(BASE, 'SelectionFunction')
